@@ -345,6 +345,53 @@ type replayStream struct {
 
 func NewStream() io.ReadWriteCloser { return &replayStream{} }
 
+// NewPipe: the native counterpart is a buffered blocking pipe.
+func NewPipe() io.ReadWriteCloser {
+	p := &replayPipe{}
+	p.cond = sync.NewCond(&p.mu)
+	return p
+}
+
+type replayPipe struct {
+	mu     sync.Mutex
+	cond   *sync.Cond
+	buf    []byte
+	closed bool
+}
+
+func (p *replayPipe) Write(b []byte) (int, error) {
+	p.mu.Lock()
+	defer p.mu.Unlock()
+	if p.closed {
+		return 0, io.ErrClosedPipe
+	}
+	p.buf = append(p.buf, b...)
+	p.cond.Broadcast()
+	return len(b), nil
+}
+
+func (p *replayPipe) Read(b []byte) (int, error) {
+	p.mu.Lock()
+	defer p.mu.Unlock()
+	for len(p.buf) == 0 && !p.closed {
+		p.cond.Wait()
+	}
+	if len(p.buf) == 0 {
+		return 0, io.EOF
+	}
+	n := copy(b, p.buf)
+	p.buf = p.buf[n:]
+	return n, nil
+}
+
+func (p *replayPipe) Close() error {
+	p.mu.Lock()
+	defer p.mu.Unlock()
+	p.closed = true
+	p.cond.Broadcast()
+	return nil
+}
+
 func (s *replayStream) Write(p []byte) (int, error) {
 	s.buf = append(s.buf, p...)
 	s.ends = append(s.ends, len(s.buf))
